@@ -9,6 +9,12 @@ HSM-LCA.match      : where trans_ finds the common ancestor in slot q of the tar
 HSM-SIGSET         : trans_ sends only SUPER/EXIT (entries are made by dispatch from the buffer); dispatch sends no REFLECTION.
 HSM-CURSOR.parent-read : after an EXIT call the parent is read from the cursor only once it is known (SUPER re-ask on HANDLED).
 HSM-CURSOR.I1      : dispatch leaves temp.fun == state.fun.
+HSM-CONTENT.O4/O5  : slot k holds the k-th ancestor of the target whenever it is used for entry (ghost frontier / depths).
+HSM-CONTENT.O6-exit: every EXIT goes to the ancestor of the current state at depth NX = exits made so far (no state skipped, repeated, or
+                     exited that is not active), from the current state through the source and on into trans_.
+HSM-CONTENT.O6-lca : where trans_ returns index r, an identity test between A(current, m) and A(target, q) passed on that path, exactly m
+                     states were exited and r == q-1: exits stop and entries start at one and the same tested common state (for a self
+                     transition the pair of parents: the source is exited and re-entered).
 Not decided: that branches (a)-(g) select the *least* common ancestor for every pair (S, T) - functional correctness of a search
 over a runtime tree.
 """
@@ -33,9 +39,13 @@ def check(run, model, tier):
     run.floor('buffer obligations in dispatch+trans_', len(res), 12)
     run.rule('HSM-CONTENT.O4-content', 'an ancestor of the target stored into slot i of the path buffer is its i-th ancestor (ghost depth d == i)')
     run.rule('HSM-CONTENT.O5-content', 'ENTRY is sent only through slots at or below the content frontier K (slots 0..K hold the 0..K-th ancestors of the target)')
+    run.rule('HSM-CONTENT.O6-exit', 'every EXIT call goes to the state of the active chain at depth NX (NX = exits made so far in the step): exits climb from the current state one level at a time')
+    run.rule('HSM-CONTENT.O6-lca', 'where the entry-path routine returns r: a state of the active chain at depth m was tested equal to the target\'s ancestor at depth q, NX == m and r == q-1 (parents for source == target)')
     cc = hsmrules.record_content_obligations(run, model, 'dispatch', cursor_at_entry=False)
     run.floor('content store obligations in dispatch+trans_', cc['O4-content'], 5)
     run.floor('content entry obligations in dispatch', cc['O5-content'], 2)
+    run.floor('exit obligations in dispatch+trans_', cc['O6-exit'], 4)
+    run.floor('common-ancestor obligations where trans_ returns', cc['O6-lca'], 1)
     n = hsmrules.entry_loops(run, model, 'dispatch')
     run.floor('entry loops in dispatch', n, 2)
     hsmrules.lca_match_rule(run, model)
